@@ -38,6 +38,7 @@ def ended_streams(ops):
 
 class C06(Prop):
     id = "C06"
+    thorough_rounds = 10   # thorough tier: this many independently seeded rounds of the random generators (duplicates dropped)
     modules = ["H3.Props.C06"]
     engines = ["adv"]
     design_ref = "DESIGN.md section 7, C06"
